@@ -31,13 +31,15 @@ SCALES = ["UTC", "TAI", "TT", "GPS", "TDB", "UT1"]
 PROPS = [None, "Kepler", "J2", "Sgp4", "Sgp4Beta", "NonePropagator", "Kepler()", "Sgp4Beta()",
          "KeplerNum:60:rk4:0.001", "KeplerNum:30:dopri54:1e-05", "KeplerNum:10:euler:0.001", "KeplerNum:120:rkf54:0.01"]
 META_KEYS = ["name", "cospar_id", "mass", "tags", "cfg", "note", "k1"]
+# free metadata whose key differs minimally from a parameter name, an alias or a reserved word: it is metadata
+NEAR_KEYS = ["X", "Vx", "omega_", "Raan", "OMEGA", "nu2", "E_", "theta0", "form_", "frame2", "date_", "aol_", "A", "I"]
 BAD_FORMS = ["foo", "keplerian_", "cartesien", "kepler", "TLE2", "mean circular"]
 BAD_FRAMES = ["XYZ", "EME2001", "itrf", "J2000", "QSW"]
 
 MUTATORS = ["set_form", "set_frame", "set_coord", "set_meta", "mutate_meta", "append_man", "remove_man",
             "set_mans", "replace_cov_entry", "attach_cov", "del_cov", "set_cov_frame"]
 MAKERS = ["copy", "copy_form", "copy_frame", "copy_both", "copy_same", "pickle", "as_orbit", "as_statevector",
-          "cov_copy", "clone", "late_frame"]
+          "cov_copy", "clone", "late_frame", "read_infos"]
 COV_FRAMES = FRAMES + ["QSW", "TNW", "QSW", "TNW"]
 FAILING = ["bad_form", "bad_frame", "hill", "wrong_param", "late_fail"]
 # frames registered by vf/props/c15.py whose use fails LATE: axes known, origin not (a tabulated chief whose table
@@ -59,7 +61,8 @@ def _meta_value(d):
 
 
 def _man(d):
-    return dict(dt_s=d.int(-3600, 86400), dv=[d.int(-200, 200) * 0.5 for _ in range(3)],
+    return dict(dt_s=d.pick(0, d.int(-3600, 86400), d.int(-3600, 86400)),  # 0: dated exactly at the epoch of the state
+                 dv=[d.int(-200, 200) * 0.5 for _ in range(3)],
                 frame=d.pick(None, "QSW", "TNW"), comment=d.pick(None, "burn", "sk #2"))
 
 
@@ -102,6 +105,8 @@ def _object(d):
         coords_as=d.pick("list", "tuple", "ndarray", "ndarray", "view"),
         # a lone maneuver: in a list, as the object itself through the setter, or as constructor keyword
         man_as=d.pick("list", "setter", "ctor"),
+        # form and frame handed to the constructor as names or as the registered objects
+        ctor_objects=d.coin(),
     )
     return spec
 
@@ -120,9 +125,11 @@ def _op(d, kind):
     if kind == "set_coord":
         op.update(k=d.int(0, 5), how=d.pick("index", "attr", "item", "alias_attr", "alias_item"),
                   factor=1.0 + d.pick(-1, 1) * d.u(1e-6, 1e-3), alias=d.int(0, 1),
-                  vtype=d.pick("float", "float", "numpy.float64", "numpy.float32", "int"))
+                  vtype=d.pick("float", "float", "numpy.float64", "numpy.float32", "int"),
+                  # ties: the very value it has / an angle put exactly on 0 or on a full turn
+                  tie=d.pick(None, None, None, "same", "zero-angle", "full-turn"))
     if kind == "set_meta":
-        op.update(key=d.pick(*META_KEYS), value=_meta_value(d), how=d.pick("attr", "item"))
+        op.update(key=d.pick(*(META_KEYS + NEAR_KEYS)), value=_meta_value(d), how=d.pick("attr", "item"))
     if kind == "mutate_meta":
         op.update(key=d.pick("tags", "cfg", *META_KEYS), item=d.int(0, 9))
     if kind == "append_man":
